@@ -597,10 +597,21 @@ package nitro
 //@ ensures[holds] result ==> s.myrefs == old(s.myrefs) + 1
 //@ ensures[refused] !result ==> s.myrefs == old(s.myrefs)
 
+// The Close that drops the last reference retires the snapshot and then triggers a collection pass itself (exactly
+// one GC() call): retirement alone would leave the collector waiting for an unrelated later Close.
+//@ ghost global gcKicks int
+//@ ghost field Snapshot.iRetired bool
+//@ func (*Nitro).GC
+//@ trusted single-collector try-lock around collectDead (release order of collectDead is verified separately, C06); each call is counted
+//@ modifies gcKicks, heap(Nitro.lastGCSn), heap(Nitro.isGCRunning), heap(skiplist.Skiplist.$phys), heap(skiplist.Skiplist.$n), heap(skiplist.Skiplist.$set), heap(skiplist.Node.$nx), heap(skiplist.Node.$del), mem(int32), heap($alive), heap($brk)
+//@ ensures gcKicks == old(gcKicks) + 1
+
 //@ func (*Snapshot).Close @step
 //@ props C08
 //@ mode step
-//@ requires s != nil && s.myrefs >= 1
+//@ requires s != nil && s.myrefs >= 1 && !s.iRetired
+//@ atomic 1 ghost if ret == 0 then s.iRetired := true
+//@ ensures[last-close-kicks-collector] s.iRetired ==> gcKicks == old(gcKicks) + 1
 //@ atomic 1 ghost s.myrefs := s.myrefs - 1
 //@ atomic 1 ghost if ret == 0 then s.retired := true
 //@ atomic 1 assert[retire-once] ret == 0 ==> !old(s.retired)
@@ -662,19 +673,20 @@ package nitro
 //@ loop 8 cut
 //@ loop 9 cut
 //@ loop 10 cut
-//@ loop 1 invariant[ctx] m != nil && jsonFail == old(jsonFail) && -1 <= rangeindex && rangelen == len(files) && ldLens(len(files), readers, errors) && len(segments) == len(files) && len(checksums) == len(files) && concurr >= 1
+//@ loop 1 invariant[ctx] m != nil && jsonFail == old(jsonFail) && readOK - old(readOK) == jsonCalls - old(jsonCalls) && -1 <= rangeindex && rangelen == len(files) && ldLens(len(files), readers, errors) && len(segments) == len(files) && len(checksums) == len(files) && concurr >= 1
 //@ loop 1 invariant[opened] forall k int {readers[k]} :: 0 <= k && k <= rangeindex && k < len(files) ==> readers[k] != nil
-//@ loop 2 invariant[ctx] m != nil && jsonFail == old(jsonFail) && 0 <= i && ldLens(len(files), readers, errors) && len(segments) == len(files) && len(checksums) == len(files) && (forall k int {readers[k]} :: 0 <= k && k < len(files) ==> readers[k] != nil)
-//@ loop 3 invariant[ctx] m != nil && jsonFail == old(jsonFail) && -1 <= rangeindex && rangelen == len(files) && ldLens(len(files), readers, errors) && len(checksums) == len(files) && (forall k int {readers[k]} :: 0 <= k && k < len(files) ==> readers[k] != nil)
-//@ loop 4 invariant[ctx] m != nil && jsonFail == old(jsonFail) && -1 <= rangeindex && rangelen == len(readers) && ldLens(len(files), readers, errors) && len(checksums) == len(files) && (forall k int {readers[k]} :: 0 <= k && k < len(files) ==> readers[k] != nil)
-//@ loop 5 invariant[ctx] m != nil && jsonFail == old(jsonFail) && -1 <= rangeindex && rangelen == len(errors)
-//@ loop 6 invariant[ctx] m != nil && jsonFail == old(jsonFail) && -1 <= rangeindex && rangelen == len(files) && ldLens(len(files), readers, errors) && len(deltaChecksums) == len(files) && len(writers) == concurr && concurr >= 1
+//@ loop 2 invariant[ctx] m != nil && jsonFail == old(jsonFail) && readOK - old(readOK) == jsonCalls - old(jsonCalls) && 0 <= i && ldLens(len(files), readers, errors) && len(segments) == len(files) && len(checksums) == len(files) && (forall k int {readers[k]} :: 0 <= k && k < len(files) ==> readers[k] != nil)
+//@ loop 3 invariant[ctx] m != nil && jsonFail == old(jsonFail) && readOK - old(readOK) == jsonCalls - old(jsonCalls) && -1 <= rangeindex && rangelen == len(files) && ldLens(len(files), readers, errors) && len(checksums) == len(files) && (forall k int {readers[k]} :: 0 <= k && k < len(files) ==> readers[k] != nil)
+//@ loop 4 invariant[ctx] m != nil && jsonFail == old(jsonFail) && readOK - old(readOK) == jsonCalls - old(jsonCalls) && -1 <= rangeindex && rangelen == len(readers) && ldLens(len(files), readers, errors) && len(checksums) == len(files) && (forall k int {readers[k]} :: 0 <= k && k < len(files) ==> readers[k] != nil)
+//@ loop 5 invariant[ctx] m != nil && jsonFail == old(jsonFail) && readOK - old(readOK) == jsonCalls - old(jsonCalls) && -1 <= rangeindex && rangelen == len(errors)
+//@ loop 6 invariant[ctx] m != nil && jsonFail == old(jsonFail) && readOK - old(readOK) == jsonCalls - old(jsonCalls) && -1 <= rangeindex && rangelen == len(files) && ldLens(len(files), readers, errors) && len(deltaChecksums) == len(files) && len(writers) == concurr && concurr >= 1
 //@ loop 6 invariant[opened] forall k int {readers[k]} :: 0 <= k && k <= rangeindex && k < len(files) ==> readers[k] != nil
-//@ loop 7 invariant[ctx] m != nil && jsonFail == old(jsonFail) && 0 <= i && ldLens(len(files), readers, errors) && len(deltaChecksums) == len(files) && len(writers) == concurr && concurr >= 1 && (forall k int {readers[k]} :: 0 <= k && k < len(files) ==> readers[k] != nil)
-//@ loop 8 invariant[ctx] m != nil && jsonFail == old(jsonFail) && -1 <= rangeindex && rangelen == len(files) && ldLens(len(files), readers, errors) && len(deltaChecksums) == len(files) && (forall k int {readers[k]} :: 0 <= k && k < len(files) ==> readers[k] != nil)
-//@ loop 9 invariant[ctx] m != nil && jsonFail == old(jsonFail) && -1 <= rangeindex && rangelen == len(readers) && ldLens(len(files), readers, errors) && len(deltaChecksums) == len(files) && (forall k int {readers[k]} :: 0 <= k && k < len(files) ==> readers[k] != nil)
-//@ loop 10 invariant[ctx] m != nil && jsonFail == old(jsonFail) && -1 <= rangeindex && rangelen == len(errors)
+//@ loop 7 invariant[ctx] m != nil && jsonFail == old(jsonFail) && readOK - old(readOK) == jsonCalls - old(jsonCalls) && 0 <= i && ldLens(len(files), readers, errors) && len(deltaChecksums) == len(files) && len(writers) == concurr && concurr >= 1 && (forall k int {readers[k]} :: 0 <= k && k < len(files) ==> readers[k] != nil)
+//@ loop 8 invariant[ctx] m != nil && jsonFail == old(jsonFail) && readOK - old(readOK) == jsonCalls - old(jsonCalls) && -1 <= rangeindex && rangelen == len(files) && ldLens(len(files), readers, errors) && len(deltaChecksums) == len(files) && (forall k int {readers[k]} :: 0 <= k && k < len(files) ==> readers[k] != nil)
+//@ loop 9 invariant[ctx] m != nil && jsonFail == old(jsonFail) && readOK - old(readOK) == jsonCalls - old(jsonCalls) && -1 <= rangeindex && rangelen == len(readers) && ldLens(len(files), readers, errors) && len(deltaChecksums) == len(files) && (forall k int {readers[k]} :: 0 <= k && k < len(files) ==> readers[k] != nil)
+//@ loop 10 invariant[ctx] m != nil && jsonFail == old(jsonFail) && readOK - old(readOK) == jsonCalls - old(jsonCalls) && -1 <= rangeindex && rangelen == len(errors)
 //@ ensures[decode-error-reported] result1 == nil ==> jsonFail == old(jsonFail)
+//@ ensures[readable-manifests-decoded] readOK - old(readOK) == jsonCalls - old(jsonCalls)
 //@ nopanic
 
 // ---------------------------------------------------------------------------
@@ -763,7 +775,7 @@ package nitro
 //@ requires wfWriter3(w) && w.count < 4611686018427387904 && w.count > -4611686018427387904 && len(bs) < 4294967296 && w.store.n < 1099511627775
 //@ modifies w.count, w.probe, w.buf.pos, elems(w.buf.preds), elems(w.buf.succs), w.store.phys, w.store.n, heap(skiplist.Node.$nx), heap(skiplist.Node.$del), w.store.level, heap($alive), heap($brk), mem(int32), mem(uint8)
 //@ modifies w.slSts1.nodeAllocs, w.slSts1.usedBytes, w.slSts1.levelNodesCount, w.slSts1.insertConflicts, w.slSts1.readConflicts, heap($g.mlive)
-//@ ghost-exit w.probe := x
+//@ at-call (*skiplist.Skiplist).Insert2 w.probe := arg1
 //@ ensures[probe] w.probe != nil && w.probe >= old(brk()) && w.probe.dataLen == len(bs) && (forall i int :: 0 <= i && i < len(bs) ==> mem8(w.probe + 12 + i) == old(bs[i]))
 //@ ensures[reject-only-if-live] n == nil ==> old(existsLive(w.Nitro, now(w.probe)))
 //@ ensures[insert-only-if-no-live] n != nil ==> !old(existsLive(w.Nitro, now(w.probe)))
@@ -789,7 +801,7 @@ package nitro
 //@ use! kc-antisym kc-trans kc-refl for ensures[found-node]
 //@ requires wfWriter3(w) && len(bs) < 4294967296
 //@ modifies w.probe, w.buf.pos, elems(w.buf.preds), elems(w.buf.succs), w.store.Stats.readConflicts, heap($alive), heap($brk), mem(int32), mem(uint8)
-//@ ghost-exit w.probe := x
+//@ at-call (*skiplist.Iterator).SeekWithCmp w.probe := arg1
 //@ ensures[probe] w.probe != nil && w.probe >= old(brk()) && w.probe.dataLen == len(bs) && (forall i int :: 0 <= i && i < len(bs) ==> mem8(w.probe + 12 + i) == old(bs[i]))
 //@ ensures[found-only-if-live] result != nil ==> existsLive(w.Nitro, w.probe)
 //@ ensures[live-is-found] existsLive(w.Nitro, w.probe) ==> result != nil
@@ -837,6 +849,8 @@ package nitro
 //@     (success ==> cast(*Item, x.itm).deadSn == w.currSn && w.gln == old(w.gln) + 1 && w.gl == store(old(w.gl), old(w.gln), x)) &&
 //@     (!success ==> cast(*Item, x.itm).deadSn == old(cast(*Item, x.itm).deadSn) && w.gln == old(w.gln) && w.gl == old(w.gl))
 //@ ensures[others-stable] forall p ref {cast(*Item, p).deadSn} :: p != x.itm ==> cast(*Item, p).deadSn == old(cast(*Item, p).deadSn)
+//@ ensures[loser-touches-nothing] !success ==> (forall nd *skiplist.Node {nd.Link} :: nd.Link == old(nd.Link)) && w.gchead == old(w.gchead) && w.gctail == old(w.gctail) && handed[x] == old(handed[x])
+//@ ensures[winner-links-only-own-tail] forall nd *skiplist.Node {nd.Link} :: nd != x && nd != old(w.gctail) ==> nd.Link == old(nd.Link)
 //@ ensures[wf] wfWriter3(w)
 //@ nopanic
 
@@ -936,3 +950,32 @@ package nitro
 //@ ensures[lists-reset] forall k int {m.wl[k]} :: 0 <= k && k < m.wn ==> wrAt(m, k).gchead == nil && wrAt(m, k).gctail == nil && wrAt(m, k).gln == 0
 //@ ensures[writers] wfWriters(m) && allGC(m, 0)
 //@ nopanic
+
+// ---------------------------------------------------------------------------
+// C06: release order. collectDead hands garbage lists to the collection workers strictly in snapshot order, without
+// gaps, starting at lastGCSn+1: the k-th list sent in one call belongs to snapshot old(lastGCSn)+k+1 and lastGCSn
+// is advanced to exactly that number before the list is sent. The traversal of the retired-snapshot list itself is
+// abstracted (call-site havoc of the skiplist iterator): whatever it yields, nothing is released out of order.
+// ---------------------------------------------------------------------------
+//@ ghost field Nitro.gk int
+
+//@ func (*Nitro).collectDead
+//@ props C06
+//@ requires m != nil && m.gcsnapshots != nil && m.snapshots != nil && 0 <= m.lastGCSn && m.lastGCSn < 4294967296
+//@ modifies *
+//@ call (*skiplist.Skiplist).MakeBuf havoc heap($alive), heap($brk)
+//@ call (*skiplist.Skiplist).NewIterator havoc heap($alive), heap($brk)
+//@ call (*skiplist.Iterator).SeekFirst havoc heap(skiplist.Iterator.prev), heap(skiplist.Iterator.curr), heap(skiplist.Iterator.valid), heap(skiplist.Iterator.$ix)
+//@ call (*skiplist.Iterator).Next havoc heap(skiplist.Iterator.prev), heap(skiplist.Iterator.curr), heap(skiplist.Iterator.valid), heap(skiplist.Iterator.deleted), heap(skiplist.Iterator.count), heap(skiplist.Iterator.$ix), mem(int32)
+//@ call (*skiplist.Iterator).Valid havoc none
+//@ call (*skiplist.Iterator).GetNode havoc none
+//@ call (*skiplist.Iterator).Close havoc mem(int32)
+//@ call (*skiplist.Skiplist).DeleteNode havoc heap(skiplist.Skiplist.$phys), heap(skiplist.Skiplist.$n), heap(skiplist.Node.$nx), heap(skiplist.Node.$del), mem(int32), heap(skiplist.ActionBuffer.$pos), mem(ptr), heap(skiplist.Stats.softDeletes), heap(skiplist.Stats.usedBytes), heap(skiplist.Stats.levelNodesCount), heap(skiplist.Stats.readConflicts)
+//@ ghost-pre m.gk := 0
+//@ loop 1 ghost m.gk := m.gk + 1
+//@ loop 1 invariant[progress] m != nil && m.gk >= 0 && m.lastGCSn == (old(m.lastGCSn) + m.gk) % 4294967296
+//@ send v assert[in-order] v == sn.gclist && sn.sn == (old(m.lastGCSn) + m.gk + 1) % 4294967296 && m.lastGCSn == sn.sn
+//@ ensures[advanced-by-count] m.lastGCSn == (old(m.lastGCSn) + m.gk) % 4294967296 && m.gk >= 0
+
+//@ func (*Nitro).GetLastGCSn
+//@ inline
